@@ -1,5 +1,6 @@
 // Suites that need access to items private to this module (feature ipa-verif, test builds only).
 
+<<<<<<< HEAD
 // ------------------------------------------------------------------------------------------
 // C16 — Batcher (agent a4). Everything is inside `c16_batcher`; items elsewhere in this file
 // belong to other properties.
@@ -531,5 +532,100 @@ pub mod c16_batcher {
     #[test]
     fn verif_c16_batcher() {
         run_suite("c16_batcher", generate, exec);
+=======
+// ---- C06: PrssIndex128 packing (the type is re-exported only inside crate::protocol) ----
+mod c06_suites {
+    use crate::{
+        ipa_verif::proto::*,
+        protocol::prss::{PrssIndex, PrssIndex128},
+    };
+
+    fn c06_kind<E: std::fmt::Debug>(e: &E) -> String {
+        let s = format!("{e:?}");
+        if s.starts_with("ConversionError") {
+            "err:conversion".into()
+        } else if s.starts_with("OutOfRange") {
+            "err:out-of-range".into()
+        } else {
+            format!("err:{}", canon(&s))
+        }
+    }
+
+    fn c06_exec_pack(req: &str) -> String {
+        let t: Vec<&str> = req.split(' ').collect();
+        match t[0] {
+            "c06.pack" => {
+                let index: u32 = t[1].parse().unwrap();
+                let offset: usize = t[2].parse().unwrap();
+                match PrssIndex128::new(PrssIndex::from(index), offset) {
+                    Ok(v) => {
+                        let wide = u128::from(v);
+                        assert_eq!(wide, u128::from(u64::from(v)), "u64 and u128 conversions differ");
+                        format!("ok {wide} {v}")
+                    }
+                    Err(e) => c06_kind(&e),
+                }
+            }
+            "c06.unpack" => {
+                let v: u128 = t[1].parse().unwrap();
+                match PrssIndex128::try_from(v) {
+                    Ok(x) => {
+                        let s = x.to_string();
+                        let (i, o) = s.split_once(':').unwrap();
+                        format!("ok {i} {o}")
+                    }
+                    Err(e) => c06_kind(&e),
+                }
+            }
+            _ => panic!("harness: unknown request {req}"),
+        }
+    }
+
+    #[test]
+    fn verif_c06_pack() {
+        run_suite(
+            "c06_pack",
+            |rng, thorough| {
+                let mut out = vec![];
+                let idxs: Vec<u64> = vec![0, 1, 2, 255, 256, 65535, 65536, (1 << 31) - 1, 1 << 31, u64::from(u32::MAX) - 1, u64::from(u32::MAX)];
+                let offs: Vec<u128> = vec![
+                    0, 1, 2, 15, 16, 2047, 2048, 2049, 2050, 4096, 65535, (1 << 31), (1u128 << 32) - 1, 1u128 << 32, (1u128 << 32) + 1,
+                    (1u128 << 32) + 2048, 1u128 << 40, (1u128 << 63), u128::from(u64::MAX),
+                ];
+                for &i in &idxs {
+                    for &o in &offs {
+                        out.push(format!("c06.pack {i} {o}"));
+                    }
+                }
+                for _ in 0..(if thorough { 5000 } else { 300 }) {
+                    let i = rng.next_u64() >> 32;
+                    let o = match rng.below(4) {
+                        0 => rng.below(2049),
+                        1 => 2040 + rng.below(20),
+                        2 => rng.next_u64() >> (rng.below(60) as u32),
+                        _ => rng.below(1 << 12),
+                    };
+                    out.push(format!("c06.pack {i} {o}"));
+                }
+                // unpack: every boundary of the three bit fields
+                let mut vs: Vec<u128> = vec![0, 1, 2047, 2048, 2049, (1 << 32) - 1, 1 << 32, (1 << 32) + 2048, (1 << 32) + 2049, u128::from(u64::MAX),
+                    u128::from(u64::MAX) - ((1u128 << 32) - 1) + 2048, 1u128 << 64, (1u128 << 64) + 5, u128::MAX, (u128::from(u32::MAX) << 32) + 2048,
+                    (u128::from(u32::MAX) << 32) + 2049];
+                for _ in 0..(if thorough { 5000 } else { 300 }) {
+                    let i = u128::from(rng.next_u64() >> 32);
+                    let o = match rng.below(3) { 0 => rng.below(2049), 1 => 2040 + rng.below(20), _ => rng.next_u64() >> 32 };
+                    vs.push((i << 32) + u128::from(o));
+                    if rng.below(8) == 0 {
+                        vs.push(rng.next_u128() >> (rng.below(128) as u32));
+                    }
+                }
+                for v in vs {
+                    out.push(format!("c06.unpack {v}"));
+                }
+                out
+            },
+            c06_exec_pack,
+        );
+>>>>>>> agent-a6
     }
 }
